@@ -17,7 +17,7 @@ def main():
     tasks = build(chk, only)
     from .common import include_dependency
     if not only or 'dep' in only:
-        include_dependency(chk, tasks, 'C04', '', 'a one-element batch is delegated to ScalarMult / scalarMultVartimeGLV, and DoubleScalarMultBasepointVartime uses the latter (abstract-group layer: contract s*P)')
+        include_dependency(chk, tasks, 'C04', 'consts mulg split bound table lookup ladder', 'a one-element batch is delegated to ScalarMult / scalarMultVartimeGLV, and DoubleScalarMultBasepointVartime uses the latter (abstract-group layer: contract s*P)')
         include_dependency(chk, tasks, 'C05', 'table lookup basemult', 'DoubleScalarMultBasepointVartime computes u1*G with scalarBaseMultVartime (contract)')
     chk.run_tasks(tasks)
     chk.discharge()
